@@ -680,6 +680,20 @@ pub fn run(ctx: &Ctx) -> Value {
             for e in public_events(&format!(":{}/{}", ZONEINFO, f.name), &m, &pq) { emit(&mut tw, &zc, e); pub_events += 1; }
         }
     }
+    // ---- 1b. synthetic files: shapes no system file has (a DST type first, one or two transitions, all types DST) ---------
+    let mut synthetic = 0usize;
+    for (name, bytes) in super::c16::lookup_models() {
+        let z = Zone::from_tzif(&bytes);
+        let (ze, model) = zone_event("synthetic", &name, &bytes, &z);
+        tw.emit(ze.clone());
+        let (Ok(z), Some(m)) = (z, model) else { continue };
+        synthetic += 1;
+        let zc = ZoneCtx { zone_event: ze, ov: m.overlapping_images(), m: &m };
+        let mut q = dense(&m);
+        let sp = sparse(ctx.t(200_000, 20_000));
+        q.instants.extend(sp.iter()); q.walls.extend(sp.iter()); q.trips.extend(sp.iter().step_by(3));
+        zone_events += hook_events(&mut tw, &zc, &z, &q);
+    }
     tw.finish();
     // ---- 2. POSIX rules through the rule reader alone and through TZ=<rule> --------------------------------
     let mut tr = Tw::new(&ctx.out, "Trace_TzRule", ctx.t(1_500, 30_000));
@@ -724,7 +738,7 @@ pub fn run(ctx: &Ctx) -> Value {
         }
     }
     tr.finish();
-    json!({"zones": zones, "zone_files_available": files.len(), "zone_files_rejected_by_chrono": rejected_files, "hook_lookups": zone_events, "public_lookups": pub_events,
+    json!({"zones": zones, "synthetic_zone_files": synthetic, "zone_files_available": files.len(), "zone_files_rejected_by_chrono": rejected_files, "hook_lookups": zone_events, "public_lookups": pub_events,
            "zones_through_public_route": public_done, "rules": rules, "rules_through_TZ_env": rule_public, "rules_deliberately_out_of_scope": out_of_scope,
            "events_zone_trace": tw.total, "events_rule_trace": tr.total})
 }
